@@ -576,6 +576,26 @@ func genC06(t *rapid.T) c06Case {
 			}
 		}
 	}
+	if c.Clock && c.Layout == c06ZoneLayout && len(c.S.Log.Recs) > 0 && rapid.Bool().Draw(t, "yearedge") {
+		// a record and a bound on either side of New Year on paper only: the instants are ordered the other way round
+		bs := []*c06Bound{&c.GB, &c.GE, &c.SB, &c.SE}
+		j := rapid.IntRange(0, len(c.S.Log.Recs)-1).Draw(t, "yearedgej")
+		jan1 := vDaysFromCivil([]int{2021, 2020, 2025, 1970, 2000, 1000, 9999}[rapid.IntRange(0, 6).Draw(t, "yearedgey")], 1, 1)
+		off := []int{120, 330, 60, 840}[rapid.IntRange(0, 3).Draw(t, "yearedgeoff")]
+		if rapid.Bool().Draw(t, "yearedgeside") {
+			// 00:30 +0200 on 1 January is 22:30 UTC on 31 December: not after an end of 23:00 +0000 on 31 December
+			k := []int{1, 3}[rapid.IntRange(0, 1).Draw(t, "yearedgek")]
+			c.S.Days[j], c.Mins[j], c.Offs[j] = jan1, 30, off
+			*bs[k] = c06Bound{Kind: "date", Day: jan1 - 1}
+			c.BMins[k], c.BOffs[k] = 23*60+45, 0
+		} else {
+			// 23:30 -0200 on 31 December is 01:30 UTC on 1 January: not before a begin of 00:15 +0000 on 1 January
+			k := []int{0, 2}[rapid.IntRange(0, 1).Draw(t, "yearedgek")]
+			c.S.Days[j], c.Mins[j], c.Offs[j] = jan1-1, 23*60+30, -off
+			*bs[k] = c06Bound{Kind: "date", Day: jan1}
+			c.BMins[k], c.BOffs[k] = 15, 0
+		}
+	}
 	return c
 }
 
